@@ -224,6 +224,15 @@ where
 
         {
             let mut guard = self.group.write();
+
+            // Another task may have created the keyspace while we were waiting
+            // on the clock or spawning the actor. The state already in the map
+            // is the one that has been handed out, so we must keep it; our own
+            // actor (and its update counter) is dropped unused.
+            if let Some(existing) = guard.get(&name) {
+                return existing.clone();
+            }
+
             guard.insert(name.clone(), state.clone());
         }
 
